@@ -19,7 +19,7 @@ LEVEL = "exploration"
 RULE = ("coordinates: tracer x ice {Specialized x (Antarctic, Arasim, Greenland), Basic x Antarctic, Uniform x UniformIce, Layered x (U|U, A|A)}, "
         "signal model {ARZ, AVZ, ZHS}, generator {List 1 particle, List 3 particles incl. a below-threshold weight, Cylindrical, Rectangular "
         "(owned randomness), FileGenerator}, offcone_max {None, 40, 0.5, 0}, weight_min {None, 0.1, (0.5,0.25), 0}, attenuation_interpolation {0.1, None}, "
-        "writer {none, recording stub, real HDF5}, triggers {None, function, dict}, antenna set {2, 1, 3 antennas incl. one in the air}; all "
+        "writer {none, recording stub, real HDF5}, triggers {None, function, dict, dict whose global coincidence fails while a component fires}, antenna set {2, 1, 3 antennas incl. one in the air}; all "
         "configurations within deviation bound 2 (quick) / 3 (thorough) of the base; two consecutive events per configuration; "
         "distinct_nontrivial = distinct configurations in which at least one non-empty signal was delivered")
 ASSUMPTIONS = ["the oracle recomputes each delivered signal with the same public building blocks (tracer, signal model, propagate, apply_response); "
@@ -35,7 +35,7 @@ COORDS = {
     "weight": [None, 0.1, (0.5, 0.25), 0],
     "interp": [0.1, None],
     "writer": ["none", "stub", "hdf5"],
-    "triggers": ["none", "func", "dict"],
+    "triggers": ["none", "func", "dict", "dict_veto"],
     "antennas": ["two", "one", "three_air"],
 }
 NAMES = list(COORDS)
@@ -191,6 +191,15 @@ def _trig_two(ants):
     return sum(1 for a in ants if a.is_hit) >= 2
 
 
+def _trig_three(ants):
+    return sum(1 for a in ants if a.is_hit) >= 3
+
+
+def _trig_dict(name):
+    # "dict_veto": a global coincidence that the base antenna set cannot reach while a component trigger fires
+    return {"global": _trig_two if name == "dict" else _trig_three, "any": _trig_func}
+
+
 def _passes(p, wmin):
     if wmin is None:
         wmin = 0
@@ -228,7 +237,7 @@ def evaluate(case):
             writer = File(os.path.join(tmp, "out.h5"), "w", write_waveforms=True, require_trigger=False,
                           write_triggers=cfg["triggers"] != "none")
             writer.open()
-        triggers = {"none": None, "func": _trig_func, "dict": {"global": _trig_two, "any": _trig_func}}[cfg["triggers"]]
+        triggers = {"none": None, "func": _trig_func, "dict": _trig_dict("dict"), "dict_veto": _trig_dict("dict_veto")}[cfg["triggers"]]
         try:
             kernel = EventKernel(generator=gen, antennas=ants, ice_model=ice, ray_tracer=tracer_cls, signal_model=sigmodel,
                                  signal_times=TIMES, event_writer=writer, triggers=triggers, offcone_max=cfg["offcone"],
@@ -318,7 +327,7 @@ def evaluate(case):
                             delivered += 1
             # ---- triggers ------------------------------------------------------------------------------------------------
             if triggers is not None:
-                want = _trig_two(ants) if cfg["triggers"] == "dict" else _trig_func(ants)
+                want = _trig_dict(cfg["triggers"])["global"](ants) if cfg["triggers"].startswith("dict") else _trig_func(ants)
                 if bool(trig) != bool(want):
                     fail("trigger-result", "event #%d: returned trigger %r, the supplied function gives %r" % (round_, trig, want))
             # ---- what the writer was told ------------------------------------------------------------------------------------
@@ -333,8 +342,9 @@ def evaluate(case):
                         fail("writer-thrown", "events_thrown=%r, generator count advanced by %r" % (call["events_thrown"], gen.count - count_before))
                     if triggers is None and call["triggered"] is not None:
                         fail("writer-trigger", "triggered=%r passed without trigger functions" % (call["triggered"],))
-                    if cfg["triggers"] == "dict" and (not isinstance(call["triggered"], dict) or
-                                                       call["triggered"] != {"global": _trig_two(ants), "any": _trig_func(ants)}):
+                    if cfg["triggers"].startswith("dict") and (
+                            not isinstance(call["triggered"], dict) or
+                            call["triggered"] != {k: f(ants) for k, f in _trig_dict(cfg["triggers"]).items()}):
                         fail("writer-trigger", "trigger dict passed to the writer is %r" % (call["triggered"],))
                     for i in range(len(ants)):
                         n_sig = len(ants[i].signals) - before[i]
